@@ -217,6 +217,7 @@ func c09(c *core.Ctx) string {
 	c09Mqtt(c, lim, fns)
 	c09DefaultRef(c)
 	c09Equality(c)
+	c09Clamp(c)
 	return "Structural necessary conditions of the rate limiter: lock discipline and reject-before-reserve typestate of the two limiter types (path-sensitive, all paths), the complete decision table of the filter's Handle (match → single acquire → 429/rateLimited | wait | pass), the carry-over logic of reload (all paths of the nested loops) and the unit/timeout wiring of the MQTT limiters. Not decided: the token/time arithmetic (per-period release bound, wait bound), value semantics of Match/DeepEqual, interleavings."
 }
 
